@@ -2,6 +2,7 @@ package vmcrash
 
 import (
 	"fmt"
+	"os"
 	"strings"
 
 	"pgregory.net/rapid"
@@ -217,6 +218,20 @@ func c11GenConst(rt *rapid.T) (string, []string) {
 func c11GenGrowth(rt *rapid.T) (string, []string) {
 	k := rapid.SampledFrom([]string{"conststr", "conststrlocal", "constmul", "arrayofarray", "arrtype", "structbig", "varstr", "constshl", "iota", "typealiaschain", "embedchain"}).Draw(rt, "gk")
 	n := rapid.SampledFrom([]int{2, 5, 10, 16, 20, 24, 28, 31, 34, 40, 64, 200, 2000}).Draw(rt, "n")
+	if k == "conststr" || k == "conststrlocal" || k == "varstr" {
+		// 16<<n bytes of constant string. The Go type checker materialises it
+		// outside any meter (known finding memory@typecheck): n in 23..27 is a
+		// tar pit of minutes per case that neither finishes soon nor crosses the
+		// memory cap soon, so it is skipped; the sizes that do cross the cap are
+		// drawn rarely, and only in the thorough tier.
+		big := os.Getenv("VERIF_TIER") == "thorough" && rapid.IntRange(0, 19).Draw(rt, "big") == 0
+		switch {
+		case big:
+			n = rapid.SampledFrom([]int{28, 30, 34, 40, 59, 60, 64}).Draw(rt, "nbig")
+		case n > 22:
+			n = 2 + n%21
+		}
+	}
 	var b strings.Builder
 	b.WriteString("package main\n\n")
 	switch k {
